@@ -64,8 +64,22 @@ pub fn class_of(t: &Tamper) -> &'static str {
         Tamper::SwapValue(..) => "swap-value", Tamper::SwapAsset(..) => "swap-asset",
         Tamper::RemoveRp(_) => "remove-rangeproof", Tamper::SwapRp(..) => "swap-rangeproof", Tamper::CorruptRp(_) => "corrupt-rangeproof",
         Tamper::RemoveSp(_) => "remove-surjectionproof", Tamper::SwapSp(..) => "swap-surjectionproof", Tamper::CorruptSp(_) => "corrupt-surjectionproof",
+        Tamper::Script(_, s) if burn_script(s) => "script-of-blinded-output-to-unspendable",
         Tamper::Script(..) => "script-of-blinded-output", Tamper::Issuance(..) => "issuance-amount",
         Tamper::SpentValue(..) => "spent-amount", Tamper::SpentAsset(..) => "spent-asset",
+    }
+}
+/// provably unspendable by the rule of the property (OP_RETURN first, empty, or longer than MAX_SCRIPT_SIZE), decided here from the bytes
+fn burn_script(s: &[u8]) -> bool { s.is_empty() || s[0] == 0x6a || s.len() > 10_000 }
+/// the script of a blinded output replaced by a provably unspendable one: a range proof is bound to the script, and the output's
+/// amount stays in the balance, so verification must fail exactly as for any other script (seeded C05-r6-2)
+fn burn_tamper(rng: &mut ChaCha20Rng, j: usize) -> String {
+    match rng.gen_range(0..8) {
+        0 | 1 => format!("script:{}:6a", j),
+        2 | 3 => format!("script:{}:6a04{:08x}", j, rng.gen::<u32>()),
+        4 | 5 => format!("script:{}:-", j),
+        6 => format!("script:{}:6a20{}", j, hex(&r32(rng))),
+        _ => { let mut sc = vec![0x51u8; 10_001]; sc[1] = rng.gen_range(0x51..0x60); format!("script:{}:{}", j, hex(&sc)) }
     }
 }
 fn vkind(a: &Value, b: &Value) -> bool { matches!((a, b), (Value::Explicit(_), Value::Explicit(_)) | (Value::Confidential(_), Value::Confidential(_))) }
@@ -337,6 +351,7 @@ fn mixed_cases(rng: &mut ChaCha20Rng, n: usize, thorough: bool) -> Vec<Case> {
                 ts.push(format!("oval:{}:{}", j, vdesc(b.sec.value, &rvbf(rng), &b.sec.asset, &b.sec.asset_bf)));
                 for t in ["rmrp", "corrp"] { ts.push(format!("{}:{}", t, j)); }
                 ts.push(format!("script:{}:{}", j, hex(&raddr_script(rng))));
+                ts.push(burn_tamper(rng, j));
             } else { ts.push(format!("oval:{}:E{}", j, b.sec.value + 1 + rng.gen_range(0..50))); }
             if conf_a {
                 ts.push(format!("oasset:{}:{}", j, adesc(&b.sec.asset, &rabf(rng))));
@@ -387,6 +402,7 @@ fn vector_cases(rng: &mut ChaCha20Rng) -> Vec<Case> {
             ts.push(format!("oasset:{}:{}", j, adesc(&o.2, &rabf(rng))));
             for k in ["rmrp", "corrp", "rmsp", "corsp"] { ts.push(format!("{}:{}", k, j)); }
             ts.push(format!("script:{}:{}", j, hex(&raddr_script(rng))));
+            for t in ["6a", "6a0401020304", "-"] { ts.push(format!("script:{}:{}", j, t)); }
             for k in j + 1..n { if outs[k].4 { for t in ["swapval", "swapasset", "swaprp", "swapsp"] { ts.push(format!("{}:{}:{}", t, j, k)); } } }
         } else {
             ts.push(format!("oval:{}:E{}", j, o.0 + 1));
@@ -404,8 +420,98 @@ fn vector_cases(rng: &mut ChaCha20Rng) -> Vec<Case> {
     out
 }
 
+// ------------------------------------------------------------------------------------------------ exact-value / exact-asset proofs
+/// `C05 exact ...`: BlindValueProofs / BlindAssetProofs of src/blind.rs run directly. The predicate is the property's own reading of an
+/// EXACT proof, decided from how the case was built (never from the verifier): accepted only for the statement the proof was made for,
+/// only for the committed value, and never when the proof states a range of more than one value (seeded C05-r6-1).
+fn eval_exact(case: &str) -> Out {
+    use elements::secp256k1_zkp::{Generator, SecretKey};
+    use elements::{BlindAssetProofs, BlindValueProofs};
+    use rand::SeedableRng;
+    let f = |k: &str| field(case, k);
+    let gen_of = |s: &str| -> Option<(AssetId, AssetBlindingFactor, Generator)> {
+        let p: Vec<&str> = s.split('.').collect();
+        if p.len() != 2 { return None; }
+        let (a, b) = (asset_from_hex(p[0])?, AssetBlindingFactor::from_slice(&unhex(p[1])?).ok()?);
+        Some((a, b, Generator::new_blinded(secp(), a.into_tag(), b.into_inner())))
+    };
+    let parsed = (|| { Some((f("k")?, asset_from_hex(f("asset")?)?, AssetBlindingFactor::from_slice(&unhex(f("abf")?)?).ok()?, f("claim")?, gen_of(f("vgen")?)?)) })();
+    let Some((k, asset, abf, claim, (vg_asset, vg_abf, vgen))) = parsed else { return Out::ok("harnesserr parse".into()) };
+    let mut rng = ChaCha20Rng::from_seed([9u8; 32]);
+    let gen = Generator::new_blinded(secp(), asset.into_tag(), abf.into_inner());
+    let same_gen = vg_asset == asset && vg_abf == abf;
+    if k == "a" {
+        let Some(claim) = asset_from_hex(claim) else { return Out::ok("harnesserr claim".into()) };
+        let sp = match SurjectionProof::blind_asset_proof(&mut rng, secp(), asset, abf) { Ok(p) => p, Err(_) => return Out::ok("made=0".into()) };
+        let ok = sp.blind_asset_proof_verify(secp(), claim, vgen);
+        // the statement "vgen is a blinding of asset `claim`" is true exactly when claim = vg_asset; the proof was made for (asset, abf)
+        let pred_fail = if ok && (claim != vg_asset || !same_gen) { Some(format!("exact-asset-proof-accepts-other|blind_asset_proof_verify accepts a proof made for asset {} as a proof that the generator of asset {} (blinded) is asset {}", tag_hex(&asset), tag_hex(&vg_asset), tag_hex(&claim))) }
+            else if !ok && claim == asset && same_gen { Some("genuine-exact-asset-proof-rejected|blind_asset_proof_verify refuses the proof blind_asset_proof made for this asset and generator".into()) } else { None };
+        return Out { result: format!("made=1 ok={}", ok as u8), pred_fail };
+    }
+    let parsed = (|| {
+        let vc: Vec<&str> = f("vcom")?.split('.').collect();
+        if vc.len() != 2 { return None; }
+        Some((f("value")?.parse::<u64>().ok()?, ValueBlindingFactor::from_slice(&unhex(f("vbf")?)?).ok()?, f("mk")?, claim.parse::<u64>().ok()?, vc[0].parse::<u64>().ok()?, ValueBlindingFactor::from_slice(&unhex(vc[1])?).ok()?))
+    })();
+    let Some((value, vbf, mk, claim, cv, cvbf)) = parsed else { return Out::ok("harnesserr parse".into()) };
+    let commit_of = |v: u64, b: ValueBlindingFactor| Value::new_confidential(secp(), v, gen, b).commitment();
+    let (Some(c), Some(vcom)) = (commit_of(value, vbf), commit_of(cv, cvbf)) else { return Out::ok("harnesserr commit".into()) };
+    let wide: Option<(u64, u8)> = if mk == "e" { None } else { let p: Vec<&str> = mk.split('.').collect(); match (p.get(1).and_then(|x| x.parse().ok()), p.get(2).and_then(|x| x.parse().ok())) { (Some(m), Some(b)) if p[0] == "w" => Some((m, b)), _ => return Out::ok("harnesserr mk".into()) } };
+    let made = match wide {
+        None => RangeProof::blind_value_proof(&mut rng, secp(), value, c, gen, vbf),
+        Some((m, b)) => RangeProof::new(secp(), m, c, value, vbf.into_inner(), &[], &[], SecretKey::new(&mut rng), 0, b, gen),
+    };
+    let rp = match made { Ok(p) => p, Err(_) => return Out::ok("made=0".into()) };
+    let range = match rp.verify(secp(), c, &[], gen) { Ok(r) => format!("{}..{}", r.start, r.end), Err(_) => "-".into() };
+    let ok = rp.blind_value_proof_verify(secp(), claim, vgen, vcom);
+    let same_stmt = same_gen && cv == value && cvbf == vbf;
+    // a proof made with exponent 0 states 2^mantissa >= 2 values unless min_value = u64::MAX forces an exact proof
+    let states_one_value = wide.map(|(m, _)| m == u64::MAX).unwrap_or(true);
+    let pred_fail = if ok && !states_one_value { Some(format!("exact-proof-accepts-a-range|blind_value_proof_verify({}) accepts a range proof over {} (committed value {}) as a proof of the exact value", claim, range, value)) }
+        else if ok && claim != value { Some(format!("exact-proof-accepts-other-value|blind_value_proof_verify accepts claimed value {} for a commitment to {}", claim, value)) }
+        else if ok && !same_stmt { Some("exact-proof-accepts-other-statement|blind_value_proof_verify accepts a proof made for another commitment or generator".to_string()) }
+        else if !ok && wide.is_none() && claim == value && same_stmt { Some("genuine-exact-proof-rejected|blind_value_proof_verify refuses the proof blind_value_proof made for this value, commitment and generator".into()) } else { None };
+    Out { result: format!("made=1 range={} ok={}", range, ok as u8), pred_fail }
+}
+fn exact_cases(rng: &mut ChaCha20Rng, n: usize) -> Vec<Case> {
+    let mut out = vec![];
+    let mut k = 0usize;
+    let vals: [u64; 12] = [0, 1, 2, 1000, 1500, 65_535, 65_536, (1 << 52) - 1, 1 << 52, i64::MAX as u64 - 1, i64::MAX as u64, 2_100_000_000_000_000];
+    while out.len() < n {
+        let (asset, abf) = (rasset_id(rng), rabf(rng));
+        let g = format!("{}.{}", tag_hex(&asset), abf_hex(&abf));
+        let other_g = match k % 3 { 0 => format!("{}.{}", tag_hex(&asset), abf_hex(&rabf(rng))), 1 => format!("{}.{}", tag_hex(&rasset_id(rng)), abf_hex(&abf)), _ => format!("{}.{}", tag_hex(&asset), hex(&[0u8; 32])) };
+        if k % 5 == 4 {
+            // exact-asset proofs: genuine, other asset claimed, other generator (other abf / other asset / unblinded)
+            let (claim, vg, tag) = match (k / 5) % 4 { 0 => (asset, g.clone(), "genuine"), 1 => (rasset_id(rng), g.clone(), "other-asset-claimed"), 2 => (asset, other_g.clone(), "other-generator"), _ => (asset, g.clone(), "genuine") };
+            out.push(Case { text: format!("C05 exact k=a asset={} abf={} claim={} vgen={}", tag_hex(&asset), abf_hex(&abf), tag_hex(&claim), vg), tags: vec!["exact-asset-proof".into(), format!("exact-asset-{}", tag)], nontrivial: true });
+            k += 1; continue;
+        }
+        let value = if k % 7 == 6 { rng.gen_range(3..u64::MAX) } else { vals[(k / 2) % vals.len()] + if k % 4 == 3 { rng.gen_range(0..1000) } else { 0 } };
+        let vbf = rvbf(rng);
+        // how the proof is made: the genuine exact proof, or a range proof that STARTS at some minimum (the claimed value, 0, 1, value-1, ...)
+        let (mk, tag): (String, &str) = match k % 6 {
+            0 | 1 => ("e".into(), "made-exact"),
+            2 => (format!("w.{}.{}", value, [0u8, 1, 8, 16, 52][(k / 6) % 5]), "made-range-from-value"),
+            3 => { let m = [0u64, 1, value / 2, value.saturating_sub(1), value.saturating_sub(500)][(k / 6) % 5].min(value); (format!("w.{}.{}", m, [0u8, 16, 52, 1, 63][(k / 12) % 5]), "made-range-from-below") }
+            4 => { let m = value.saturating_sub(rng.gen_range(1..70_000)).min(value); (format!("w.{}.{}", m, rng.gen_range(0..32u8)), "made-range-random") }
+            _ => (format!("w.{}.0", value.saturating_add(1 + (k as u64 % 3))), "made-range-min-above-value"),
+        };
+        // RangeProof::verify of the dependency computes max_value + 1: stay below a proven range that ends at u64::MAX
+        let mk = if mk.starts_with("w.0.") && value > i64::MAX as u64 { "e".to_string() } else { mk };
+        let min_of = |mk: &str| mk.split('.').nth(1).and_then(|x| x.parse::<u64>().ok());
+        let (claim, ctag) = match (k / 3) % 5 { 0 | 1 => (value, "claim-committed-value"), 2 => (min_of(&mk).unwrap_or(value.wrapping_add(1)), "claim-range-minimum"), 3 => (value.wrapping_add(1), "claim-value-plus-1"), _ => (value.saturating_sub(1), "claim-value-minus-1") };
+        let (vg, vcv, vcb, stag) = match (k / 2) % 9 { 0 => (other_g.clone(), value, vbf, "verify-other-generator"), 1 => (g.clone(), value, rvbf(rng), "verify-other-blinding"), 2 => (g.clone(), claim, vbf, "verify-commitment-to-claim"), _ => (g.clone(), value, vbf, "verify-own-statement") };
+        out.push(Case { text: format!("C05 exact k=v asset={} abf={} value={} vbf={} mk={} claim={} vgen={} vcom={}.{}", tag_hex(&asset), abf_hex(&abf), value, vbf_hex(&vbf), mk, claim, vg, vcv, vbf_hex(&vcb)),
+                        tags: vec!["exact-value-proof".into(), format!("exact-{}", tag), format!("exact-{}", ctag), format!("exact-{}", stag)], nontrivial: true });
+        k += 1;
+    }
+    out
+}
+
 pub fn eval(case: &str) -> Out {
-    match case.split(' ').nth(1).unwrap_or("") { "tamper" => eval_tamper(case), "explicit" => eval_explicit(case), "opened" => eval_opened(case), _ => Out::ok("harnesserr kind".into()) }
+    match case.split(' ').nth(1).unwrap_or("") { "tamper" => eval_tamper(case), "explicit" => eval_explicit(case), "opened" => eval_opened(case), "exact" => eval_exact(case), _ => Out::ok("harnesserr kind".into()) }
 }
 
 // ------------------------------------------------------------------------------------------------ generators
@@ -436,6 +542,7 @@ pub fn all_tampers(rng: &mut ChaCha20Rng, spec: &TxSpec, b: &Blinded) -> Vec<Str
                 v.push(format!("oasset:{}:{}", j, adesc(&other_asset(rng, &a), &abf)));
                 for k in ["rmrp", "corrp", "rmsp", "corsp"] { v.push(format!("{}:{}", k, j)); }
                 v.push(format!("script:{}:{}", j, hex(&raddr_script(rng))));
+                v.push(burn_tamper(rng, j));
                 if let Some(k) = (0..n).find(|k| *k != j && open(*k).is_some()) {
                     let (v2, vbf2, a2, abf2) = open(k).unwrap();
                     v.push(format!("oval:{}:{}", j, vdesc(v2, &vbf2, &a2, &abf2)));      // another output's commitment
@@ -470,6 +577,8 @@ pub fn gen(rng: &mut ChaCha20Rng, n: usize, thorough: bool) -> Vec<Case> {
     let mut vc = vector_cases(rng);
     // (0b) transactions built directly with every combination explicit/confidential of (asset, value) per output
     vc.extend(mixed_cases(rng, if thorough { n / 4 } else { (n / 3).max(60) }, thorough));
+    // (0c) exact-value and exact-asset proofs of PSET explicit fields
+    vc.extend(exact_cases(rng, if thorough { n / 3 } else { 90 }));
     let n_vec = vc.len();
     out.extend(vc);
     // (1) tampers of blinded transactions: every class at every applicable position (thorough) or a sample of them per transaction (quick)
